@@ -208,6 +208,7 @@ func (m *Machine) doLookup(t *Thread, f *Frame, i *ssa.Lookup) {
 		key := m.get(f, i.Index)
 		var val Value
 		found := false
+		m.raceMap(t, a, false, i)
 		if a != nil {
 			if e := m.mapFind(a, key, i); e != nil {
 				val, found = m.copyVal(e.V), true
@@ -292,6 +293,7 @@ func (m *Machine) doRange(f *Frame, i *ssa.Range) Value {
 		return &Opaque{Tag: "iter", X: &rangeIter{str: a, isStr: true}}
 	case *MapObj:
 		it := &rangeIter{mp: a}
+		m.raceMap(m.cur, a, false, i)
 		if a != nil {
 			// iteration order: insertion order by default; "maporder=all" forks over every permutation (≤4 entries)
 			var live []*MapEntry
